@@ -43,6 +43,7 @@ type vConn struct {
 	lastWrite  []byte
 	failWrites bool
 	failReads  bool
+	inbound    [][]byte // packets Read returns before it fails / blocks
 	readDL     int
 	writeDL    int
 }
@@ -52,6 +53,11 @@ type vConnErr struct{}
 func (vConnErr) Error() string { return "vconn: injected failure" }
 
 func (c *vConn) Read(b []byte) (int, error) {
+	if len(c.inbound) > 0 {
+		p := c.inbound[0]
+		c.inbound = c.inbound[1:]
+		return copy(b, p), nil
+	}
 	if c.failReads {
 		return 0, vConnErr{}
 	}
@@ -242,4 +248,23 @@ func deadlineExceeded() *deadline.Deadline {
 	d := deadline.New()
 	d.Set(time.Now().Add(-time.Second))
 	return d
+}
+
+// a context that is never done
+type vNeverCtx struct{}
+
+func (vNeverCtx) Deadline() (time.Time, bool) { return time.Time{}, false }
+func (vNeverCtx) Done() <-chan struct{}       { return nil }
+func (vNeverCtx) Err() error                  { return nil }
+func (vNeverCtx) Value(any) any               { return nil }
+
+func vLocksFree(a *Association, s *Stream) bool {
+	free := !vRWMutexHeldNative(&a.lock) && !vMutexHeldNative(&a.timerMu)
+	if s != nil {
+		free = free && !vRWMutexHeldNative(&s.lock)
+	}
+	for _, t := range []*rtxTimer{a.t1Init, a.t1Cookie, a.t2Shutdown, a.t3RTX, a.tReconfig} {
+		free = free && !vMutexHeldNative(&t.mutex)
+	}
+	return free && !vMutexHeldNative(&a.ackTimer.mutex) && !vRWMutexHeldNative(&a.rtoMgr.mutex)
 }
